@@ -194,6 +194,11 @@ Plan generate(Rng &rng, const Opts &opts, uint64_t)
             ms.push_back(sid);
         } else if (r < 94) {
             p.steps.push_back(mk(t, "ANNOT", {sid, ms[rng.below(ms.size())], inst}));
+            if (inst != 0 && rng.chance(2, 3)) {
+                // the same annotator handed another model straight away (often one with the same ids in the same places)
+                ++sid;
+                p.steps.push_back(mk(t, "ANNOT", {sid, ms[rng.below(ms.size())], inst}));
+            }
         } else {
             p.steps.push_back(mk(t, "EQUALS", {sid, ms[rng.below(ms.size())], ms[rng.below(ms.size())]}));
         }
@@ -554,14 +559,45 @@ void execute(const Plan &plan, Ctx &ctx)
             std::string before = dumpModel(it->second, withLinks);
             an->setModel(it->second);
             std::ostringstream o;
+            // whatever the annotator returns must be an object of the model it was given now (not of a model it was given
+            // before: a reused annotator must not answer from what it remembers)
+            size_t foreign = 0;
+            auto belongs = [&](const AnyCellmlElementPtr &item) {
+                if (item == nullptr) {
+                    return true;
+                }
+                ParentedEntityPtr pe;
+                switch (item->type()) {
+                case CellmlElementType::COMPONENT:
+                case CellmlElementType::COMPONENT_REF: pe = item->component(); break;
+                case CellmlElementType::VARIABLE: pe = item->variable(); break;
+                case CellmlElementType::UNITS: pe = item->units(); break;
+                case CellmlElementType::RESET:
+                case CellmlElementType::RESET_VALUE:
+                case CellmlElementType::TEST_VALUE: pe = item->reset(); break;
+                case CellmlElementType::UNIT: pe = item->unitsItem() != nullptr ? item->unitsItem()->units() : nullptr; break;
+                case CellmlElementType::MODEL:
+                case CellmlElementType::ENCAPSULATION: return item->model() == it->second;
+                default: return true;
+                }
+                for (int hops = 0; pe != nullptr && hops < 64; ++hops) {
+                    if (pe == it->second) {
+                        return true;
+                    }
+                    pe = pe->parent();
+                }
+                return false;
+            };
             auto ids = an->ids();
             o << "ids=" << ids.size() << " count=" << an->itemCount("") << "\n";
             for (auto &id : ids) {
                 o << esc(id) << " n=" << an->itemCount(id) << " unique=" << an->isUnique(id);
                 for (auto &item : an->items(id)) {
                     o << " [" << itemString(item) << "]";
+                    foreign += belongs(item) ? 0 : 1;
                 }
                 auto one = an->item(id);
+                foreign += belongs(one) ? 0 : 1;
                 o << " item=" << itemString(one) << " issues{" << dumpIssues(an) << "}\n";
             }
             o << "dups:";
@@ -570,6 +606,10 @@ void execute(const Plan &plan, Ctx &ctx)
             }
             o << "\nmissing=" << itemString(an->item("no_such_id_x")) << " issues{" << dumpIssues(an) << "}\n";
             checkLogger(ctx, an, "annotator", "item", true);
+            if (foreign != 0) {
+                ctx.violate("C12", "answer-from-remembered-state", inst == 0 ? "Annotator,fresh-instance" : "Annotator,reused-instance", "annotator lookups after setModel(m) returned " + str(foreign) + " object(s) that do not belong to m");
+                return;
+            }
             if (dumpModel(it->second, withLinks) != before) {
                 ctx.violate("C12", "input-mutated", "Annotator.lookups", "annotator lookups changed the model they were given");
                 return;
